@@ -77,13 +77,14 @@ def gen_cases(ctx):
                 for rev in (False, True):
                     cases.append(mk_case(n, ps, us, rng, rev, noclass=rng.chance(1, 6)))
                     ctx.count("exhaustive parents n=%d" % n)
-        # every one of the 6^4 assignments over 4 classes, each with one random uses-graph over 3 entities and a random order
+        # every one of the 6^4 assignments over 4 classes, each with three random uses-graphs over 3 entities and random orders
         allps = list(itertools.product([None] + list(range(5)), repeat=4))
         rng.shuffle(allps)
         for ps in allps:
-            us = {i: [j for j in range(3) if j != i and rng.chance(2, 5)] for i in range(3)}
-            cases.append(mk_case(4, ps, us, rng, rng.chance(1, 2), noclass=rng.chance(1, 6)))
-            ctx.count("exhaustive parents n=4 (one uses-graph each)")
+            for _ in range(3):
+                us = {i: [j for j in range(3) if j != i and rng.chance(2, 5)] for i in range(3)}
+                cases.append(mk_case(4, ps, us, rng, rng.chance(1, 2), noclass=rng.chance(1, 6)))
+                ctx.count("exhaustive parents n=4 (three random uses-graphs / orders each)")
         # every uses-graph over 3 entities on a few parent shapes
         shapes = [(None, None, None), (1, 0, None), (1, 2, 0), (0, 0, 0), (3, 0, 1)]
         for u in uses_graphs(3):
@@ -232,7 +233,7 @@ def run(ctx):
     ctx.dist["workspaces with a parent cycle of length >= 2"] = sum(1 for c in cases if shape(c)[1])
     ctx.samples = [{"case": cases[i], "harness": impl[i]} for i in (0, ncorpus, len(cases) - 1) if 0 <= i < len(cases)]
     return ctx.finish(rule=RULE, extra={"exhaustive": ctx.tier == "thorough", "exhaustive_space":
-                                        "thorough: all 6^4 parent assignments over 4 classes x all 64 uses-graphs over 3 entities x both analysis orders, and everything over 1..3 classes; quick: all assignments over 1..4 classes (one random uses-graph and order each for 4) + all 64 uses-graphs"})
+                                        "thorough: all 6^4 parent assignments over 4 classes x all 64 uses-graphs over 3 entities x both analysis orders, and everything over 1..3 classes; quick: all assignments over 1..4 classes (three random uses-graphs / orders each for 4) + all 64 uses-graphs"})
 
 
 RULE = ("cases = corpus (self parent in every letter case, mutual parents, longer cycles, subclass of a cycle, uses cycles, missing parents, file without a class, unknown types) "
